@@ -54,7 +54,18 @@ VALUES = {
     "lazy": ("3ɾ", [1, 2, 3]),
     "lazy_mapped": ("3ɾ›", [2, 3, 4]),
     "string": ("`ab`", "ab"),
+    # an infinite list (carries the `infinite` flag; copies made by : / D do not): judged on its first 64 items
+    "primes": ("Þp", [2, 3, 5, 7, 11, 13, 17, 19, 23, 29, 31, 37, 41, 43, 47, 53, 59, 61, 67, 71, 73, 79, 83, 89, 97, 101, 103, 107, 109, 113,
+                      127, 131, 137, 139, 149, 151, 157, 163, 167, 173, 179, 181, 191, 193, 197, 199, 211, 223, 227, 229, 233, 239, 241, 251,
+                      257, 263, 269, 271, 277, 281, 283, 293, 307, 311]),
 }
+INFINITE = {"primes"}
+# elements that are meant to work on an infinite list (anything else would just diverge)
+INF_TRANSITIONS = [("c(v,7)", "7 c "), ("c(v,13)", "13 c "), ("c(v,100)", "100 c "), ("h", "h "), ("i(v,3)", "3 i "), ("Ẏ(v,4)", "4 Ẏ "),
+                   ("Ḣ", "Ḣ "), ("ȯ(v,2)", "2 ȯ "), ("›", "› "), ("d", "d "), ("+(v,1)", "1 + "), ("ḣ", "ḣ "), (":", ": "),
+                   ("ẇ(v,2)", "2 ẇ "), ("l(v,2)", "2 l "), ("¦", "¦ "), ("U", "U "), ("ė", "ė "), ("p(v,0)", "0 p ")]
+# the global array is a mutable container: a snapshot taken with ¾ must not follow later pushes / pops
+GLOBAL_TRANSITIONS = [("⅛", "1 ⅛ "), ("¼", "¼ _ "), ("¾", "¾ _ "), ("⅛⅛", "2 ⅛ 3 ⅛ "), ("Þ¾", "Þ¾ ")]
 # copy-op: (program text after the value, how to read the untouched reference, how to bring a copy to the top)
 COPY_OPS = {
     ":": (":", "stack0", ""),          # [copy, original]: work on the top, bottom must survive
@@ -64,6 +75,7 @@ COPY_OPS = {
     "£¥": ("£¥", "register", ""),      # register holds it
     "⅛¾": ("⅛¾h", "global0", ""),      # global array holds it; ¾ gives a copy of the array, h its first item
     "D→x": ("D→x", "stack0+var", ""),  # [original, copy] on the stack and a copy in a variable; work on the top
+    "⅛¾snapshot": ("⅛¾", "stack0", "wrapped"),  # the value goes into the global array; ¾ leaves a snapshot [value] on the stack
 }
 # side arguments pushed before an element so that it consumes only the value on top (+ these)
 SIDE = {2: ["0"], 3: ["0", "9"]}
@@ -122,6 +134,8 @@ def build(hist):
     st = St()
     st.hist = hist
     st.want = VALUES[vname][1]
+    if COPY_OPS[cname][2] == "wrapped":
+        st.want = [st.want]
     st.how = COPY_OPS[cname][1]
     ns = sandbox.base_namespace()
     ctx = sandbox.fresh_ctx()
@@ -162,10 +176,10 @@ def untouched(st):
     return out
 
 
-def read(v):
+def read(v, limit=64):
     try:
         with sandbox.watchdog(2.0):
-            return sandbox.pyval(v, limit=64)
+            return sandbox.pyval(v, limit=limit)
     except BaseException as e:  # noqa
         if isinstance(e, KeyboardInterrupt):
             raise
@@ -183,7 +197,8 @@ def canon_state(st):
         return 0
 
     cache = tuple(lens(v) for v in st.stack)
-    return (st.hist[0], st.hist[1], repr(read(st.stack)), repr(read(untouched(st))), cache, st.exc is not None)
+    lim = 16 if st.hist[0] in INFINITE else 64
+    return (st.hist[0], st.hist[1], repr(read(st.stack, lim)), repr(read(untouched(st), lim)), cache, st.exc is not None)
 
 
 def _bfs_shard(args):
@@ -201,21 +216,49 @@ def _bfs_shard(args):
         if st.exc is not None:
             part.skip("history raises (out of domain)")
             return
-        got = [read(v) for v in untouched(st)]
+        inf = vname in INFINITE
+        got = [read(v, 16 if inf else 64) for v in untouched(st)]
         part.outcome(repr(got)[:40])
+        want = st.want[:16] if inf else st.want
         for g in got:
-            if g != st.want:
+            if g != want:
                 last = hist[-1].strip()
                 part.violation("history", {"value": VALUES[vname][0], "copy_op": cname, "elements": [h.strip() for h in hist[2:]],
                                            "program": VALUES[vname][0] + " " + COPY_OPS[cname][0] + " " + "".join(hist[2:])},
                                "an untouched copy changed after an element ran on the other reference",
                                {"last": last.split()[-1] if last else "", "value": vname, "copy_op": cname},
-                               st.want, g, size=len(hist) * 100 + len(last))
+                               want, g, size=len(hist) * 100 + len(last))
                 return
 
     states, transitions_n, maxd, dedup = explore.bfs([vname, cname], enabled, build, canon_state, check, depth)
     part.section("bfs", states=states, transitions=transitions_n, dedup_hits=dedup)
     part.d["nontrivial_n"] += states
+    return part.data()
+
+
+def _hist_shard(args):
+    """explicit two-step histories (no BFS): every prefix is checked too"""
+    vname, cname, hists = args
+    part = explore.Partial()
+    inf = vname in INFINITE
+    for h in hists:
+        for k in range(1, len(h) + 1):
+            hist = [vname, cname] + h[:k]
+            st = build(hist)
+            part.count()
+            if st.exc is not None:
+                part.skip("history raises (out of domain)")
+                break
+            want = st.want[:16] if inf else st.want
+            got = [read(v, 16 if inf else 64) for v in untouched(st)]
+            bad = [g for g in got if g != want]
+            part.section("bfs", states=1, transitions=1)
+            if bad:
+                part.violation("history", {"value": VALUES[vname][0], "copy_op": cname, "elements": [x.strip() for x in h[:k]],
+                                           "program": VALUES[vname][0] + " " + COPY_OPS[cname][0] + " " + "".join(h[:k])},
+                               "an untouched copy changed after an element ran on the other reference",
+                               {"last": h[k - 1].split()[-1], "value": vname, "copy_op": cname}, want, bad[0], size=k * 100)
+                break
     return part.data()
 
 
@@ -227,12 +270,30 @@ def run(tier, seed):
     allt = transitions(tier)
     sus = [t for t in allt if t[0].split("(")[0] in SUSPECTS]
     shards = []
+    hist_shards = []
     for v in VALUES:
         for c in COPY_OPS:
+            if c == "⅛¾snapshot":
+                if v not in INFINITE:
+                    shards.append((v, c, 3, GLOBAL_TRANSITIONS))
+                continue
+            if v in INFINITE:
+                if c == "Ḃ":
+                    continue  # reversing an infinite list diverges by definition
+                if quick:
+                    shards.append((v, c, 1, INF_TRANSITIONS))
+                    # membership tests / partial reads followed by a read (two steps), without the full square
+                    pre = [t for t in INF_TRANSITIONS if t[0] in ("c(v,7)", "c(v,13)", "c(v,100)", "Ẏ(v,4)", "i(v,3)", "Ḣ")]
+                    post = [t for t in INF_TRANSITIONS if t[0] in ("h", "i(v,3)", "Ẏ(v,4)", "c(v,13)")]
+                    hist_shards.append((v, c, [[a[1], b[1]] for a in pre for b in post]))
+                else:
+                    shards.append((v, c, 2, INF_TRANSITIONS))
+                continue
             # depth 1 over every element; deeper over the mutation-suspect alphabet
             shards.append((v, c, 1, allt))
             shards.append((v, c, 2 if quick else 3, sus if not quick else [t for t in sus if t[0].split("(")[0] in SUSPECTS[:16]][:36]))
     explore.pmap(_bfs_shard, shards, rep, seed)
+    explore.pmap(_hist_shard, hist_shards, rep, seed)
     b = rep.sections.get("bfs", {})
     rep.extra.update({
         "states": int(b.get("states", 1)) or 1,
